@@ -97,6 +97,48 @@ class BUser(BaseException):
     pass
 
 
+class UFalsy(Exception):          # instances are falsy
+    def __len__(self):
+        return 0
+
+
+class GFalsy(GlomError):
+    def __bool__(self):
+        return False
+
+
+# user subclasses of the library's own error classes, constructed the way the library does
+class SubTypeMatch(glom.TypeMatchError):
+    pass
+
+
+class SubMatch(glom.MatchError):
+    pass
+
+
+class SubCoalesce(glom.CoalesceError):
+    pass
+
+
+class SubPAE(glom.PathAccessError):
+    pass
+
+
+class SubCheck(glom.CheckError):
+    pass
+
+
+class SubUnreg(glom.UnregisteredTarget):
+    pass
+
+
+class Slotted:                    # no 'keys', 'get' or 'iterate' handler
+    __slots__ = ()
+
+
+LIBSUB = {'SubTypeMatch', 'SubMatch', 'SubCoalesce', 'SubPAE', 'SubCheck', 'SubUnreg'}
+
+
 CATALOGUE = {
     'Exception': lambda: Exception('x'), 'ValueError': lambda: ValueError(), 'KeyError': lambda: KeyError('k'), 'IndexError': lambda: IndexError('i'),
     'TypeError': lambda: TypeError('t'),
@@ -107,6 +149,12 @@ CATALOGUE = {
     'GSub': lambda: GSub('x'), 'GKeep': lambda: GKeep(1, 2), 'GInit2': lambda: GInit2(1, 2),
     'GDbl': lambda: GDbl(3), 'GVal': lambda: GVal('v'), 'GCopy': lambda: GCopy(1, 2),
     'BKbd': lambda: KeyboardInterrupt(), 'BUser': lambda: BUser(1),
+    'StopIter': lambda: StopIteration(3), 'UFalsy': lambda: UFalsy('f'), 'GFalsy': lambda: GFalsy('g'),
+    'SubTypeMatch': lambda: SubTypeMatch(int, str), 'SubMatch': lambda: SubMatch('fmt {0}', 1),
+    'SubCoalesce': lambda: SubCoalesce(Coalesce('a', 'b'), [], ['p']),
+    'SubPAE': lambda: SubPAE(KeyError('a'), glom.Path('a'), 0),
+    'SubCheck': lambda: SubCheck(['m'], Check(type=int), ['p']),
+    'SubUnreg': lambda: SubUnreg('get', int, {}, ['p']),
 }
 
 
@@ -131,8 +179,12 @@ def measure(e, cid, kind):
     except Exception:
         cp = 'fail'
     anc = [cid] + [p for p in POOL if isinstance(e, POOL_PY[p]) and p != cid]
+    try:
+        truthy = bool(e)
+    except Exception:
+        truthy = True
     return {'id': cid, 'anc': anc, 'exc': isinstance(e, Exception), 'glom': isinstance(e, GlomError),
-            'rec': rec, 'cp': cp, 'kind': kind}
+            'rec': rec, 'cp': cp, 'kind': kind, 'truthy': truthy}
 
 
 # ---- sentinels and probes -------------------------------------------------------------------
@@ -229,12 +281,16 @@ GLOM_LEAVES = {
     'PathAccessError': [lambda: ('a', {}), lambda: (T['a'], {}), lambda: (T.a, Plain()),
                         lambda: ('a.b', {'a': 1})],
     'CoalesceError': [lambda: (Coalesce('a', 'b'), {})],
-    'UnregisteredTarget': [lambda: ([T], Plain())],
+    # the last alternatives first walk a value of the same type with a wildcard (an earlier,
+    # unrelated glom call must not change which error a later one raises)
+    'UnregisteredTarget': [lambda: ([T], Plain()), lambda: ([T], Slotted()),
+                           lambda: ([T], Slotted(), lambda: glom.glom([Slotted()], '**')),
+                           lambda: ([T], Slotted(), lambda: glom.glom({'a': Slotted()}, '*'))],
     'BadSpec': [lambda: (Group([{T: T}]), range(5))],
     'MatchError': [lambda: (M == _never, 1), lambda: (Match(2), 1)],
     'TypeMatchError': [lambda: (Match(str), 1)],
     'CheckError': [lambda: (Check(type=str), 1)],
-    'FoldError': [lambda: (Flatten(), 2)],
+    'FoldError': [lambda: (Flatten(), 2), lambda: (Flatten(), Slotted(), lambda: glom.glom([Slotted()], '**'))],
     'PathAssignError': [lambda: (Assign('a', 'b'), object())],
     'PathDeleteError': [lambda: (Delete('a'), object())],
 }
@@ -251,11 +307,15 @@ class World:
         self.sent = {}
         self.unwrap = {}
         self.make_exc = make_exc
+        self.prelude = None
         inner = ctxs[-1]['k'] if ctxs else ''
         top = self.n
         if leaf['kind'] == 'glomdoc' and make_exc is None:
             alts = GLOM_LEAVES[leaf['id']]
-            spec, target = alts[how % len(alts)]()
+            made = alts[how % len(alts)]()
+            spec, target = made[0], made[1]
+            if len(made) > 2:
+                self.prelude = made[2]
             self.leafcls = GLOMDOC[leaf['id']]
             spec = self.P(self.n, spec, self.log)
         else:
@@ -315,7 +375,7 @@ class World:
         return {'exact': self.leafcls, 'other': ZeroDivisionError,
                 'tuple': (ZeroDivisionError, self.leafcls), 'tuple_non': (ZeroDivisionError, ImportError),
                 'glomerror': GlomError, 'exception': Exception, 'keyerror': KeyError,
-                'base': BaseException}[skip]
+                'base': BaseException, 'empty': ()}[skip]
 
     def realise(self, c, l, child, t):
         k, v = c['k'], c['v']
@@ -398,6 +458,8 @@ class World:
         return out
 
     def run(self, kw):
+        if self.prelude is not None:
+            self.prelude()
         try:
             res = glom.glom(self.target, self.spec, **self.kwargs(kw))
         except BaseException as e:
@@ -477,7 +539,7 @@ class World:
         return {'st': 'raised', 'id': ident_, 'args': 'same' if same_args else 'diff', 'w': w,
                 'cls': {'id': cid, 'anc': anc, 'exc': isinstance(e, Exception),
                         'glom': isinstance(e, GlomError), 'rec': 'same', 'cp': 'ok',
-                        'kind': 'glomdoc' if type(e) in GLOMDOC_BY_TYPE else 'user'}}
+                        'kind': 'glomdoc' if type(e) in GLOMDOC_BY_TYPE else 'user', 'truthy': True}}
 
 
 def proj_model(x):
